@@ -70,6 +70,27 @@ def check_copy(run, eff, f, cls_fields, rule='R4', receiver=None):
                 if others:
                     run.violation(rule + 'd', f, st, 'the copy of field `%s` is only made when a condition on %s holds: an object that has `%s` but fails '
                                   'that condition is copied without it' % (fld, ', '.join('self.' + o for o in sorted(others)), fld))
+    # (d'') a field array assembled by sliced stores from self.<field> is a partial copy unless the slice is the whole array
+    for st, ctx in walk(f.node):
+        if not (isinstance(st, ast.Assign) and isinstance(st.targets[0], ast.Subscript) and isinstance(st.targets[0].value, ast.Name)):
+            continue
+        srcs = {n.attr for n in ast.walk(st.value) if isinstance(n, ast.Attribute) and norm(n.value) == 'self' and n.attr in cls_fields}
+        if not srcs:
+            continue
+        sl = st.targets[0].slice
+        full = (isinstance(sl, ast.Slice) and sl.lower is None and sl.upper is None and sl.step is None) or \
+               (isinstance(sl, ast.Constant) and sl.value is Ellipsis)
+        if full:
+            continue
+        fld = sorted(srcs)[0]
+        cname = f.cls.name if f.cls is not None else ''
+        half = isinstance(sl, ast.Slice) and sl.lower is None and sl.step is None and sl.upper is not None and norm(sl.upper) in ('self.N', 'N')
+        if half and cname in ('StabilizerState', 'CliffordMap') and fld in ('gs', 'ps'):
+            run.violation(rule + 'd', f, st, 'the copy fills only rows [:N] of `%s` from self.%s: a tableau has 2N rows, the destabilizer half of the copy is '
+                          'not the original\'s (to_map, diagonalize and later updates read it)' % (fld, fld))
+        else:
+            run.undecided(rule + 'd', f, st, 'field `%s` of the copy is assembled by a sliced store (%s): whether the slice covers the whole array is not decided'
+                          % (fld, norm(st.targets[0])))
     # (d) faithfulness
     top = {}
     for o in objs:
